@@ -257,6 +257,12 @@ func (x *Exec) applyContract(st *State, fr *Frame, con *Contract, key string, na
 			}
 		}
 	}
+	if callCovers && fr != nil && fr.depth == 0 && site != nil {
+		// paired with the query emitted after the contract has been assumed (see below)
+		x.coverRole = "pre"
+		x.cover(st, x.instrName(fr, site, "call")+".cover("+key+")", "cover", x.safetyTags(fr), x.posOf(site.Pos()), "assuming the contract of "+key+" leaves a reachable path satisfiable")
+		x.coverRole = ""
+	}
 	pre := snapshotMem(st)
 	env := &CEnv{st: st, oldMem: pre, vars: vars, tparam: tp, fn: key, prove: true}
 	for i, rq := range con.Requires {
@@ -445,7 +451,9 @@ func (x *Exec) applyContract(st *State, fr *Frame, con *Contract, key string, na
 	if callCovers && fr != nil && fr.depth == 0 && site != nil {
 		// (thorough tier) one query per path reaching the call; the site is covered when any of them is satisfiable
 		cname := x.instrName(fr, site, "call") + ".cover(" + key + ")"
-		x.cover(st, cname, "cover", x.safetyTags(fr), x.posOf(site.Pos()), "some path stays satisfiable after assuming the contract of "+key)
+		x.coverRole = "post"
+		x.cover(st, cname, "cover", x.safetyTags(fr), x.posOf(site.Pos()), "assuming the contract of "+key+" leaves a reachable path satisfiable")
+		x.coverRole = ""
 	}
 	if fr != nil {
 		if fr.lastCall == nil {
